@@ -26,6 +26,8 @@ class Extract:
         self.cells_at = []      # (recv, [fields])
         self.cellalias = []     # (name, path, field)
         self.tracing = False
+        self.loop_index = 0
+        self.loop_containing = None   # regex: the innermost loop whose header+body matches (instead of an ordinal)
         self.panics = 'obligation'
         self.cfg = 'debug'
         self.rules = []           # (label, regex?, pat, rep, count)
@@ -44,10 +46,14 @@ class Extract:
         self.no_release_variant = False
         self.cut_after = None
         self.attrs = []
+        self.must_calls = []      # (tag, regex, when)          -> variant `ensures false` with the call followed by a diverging helper
+        self.never_calls = []     # (tag, regex, when)          -> variant with the call preceded by `vx_forbidden()`
+        self.orders = []          # (tag, regexA, regexB, when) -> variant: A diverges, B forbidden: every B is preceded by an A
         # outputs
         self.meta = {}
 
 
+_VARIANT = re.compile(r'^(must_call|never_call|order)\s+([\w-]+)\s*:\s*`(.*?)`(?:\s+before\s+`(.*?)`)?(?:\s+when\s+`(.*?)`)?\s*$')
 _RULE = re.compile(r'^rule\s+(\S+?)(\s+re)?\s*:\s*`(.*?)`\s*=>\s*`(.*?)`(?:\s+x(\d+|\*))?\s*$')
 
 
@@ -104,6 +110,19 @@ def parse(template_text):
                         cur = ('loop', n)
                     elif d.startswith('loop '):
                         cur = ('loop', int(d[5:].rstrip(':').strip()))
+                    elif d.startswith(('must_call ', 'never_call ', 'order ')):
+                        mo = _VARIANT.match(d)
+                        if not mo:
+                            raise ValueError('bad variant directive at template line %d: %s' % (i + 1, d))
+                        kind_, tag, a, b, when = mo.group(1), mo.group(2), mo.group(3), mo.group(4), mo.group(5)
+                        if kind_ == 'order':
+                            if b is None:
+                                raise ValueError('order needs `A` before `B` at template line %d' % (i + 1))
+                            ex.orders.append((tag, a, b, when))
+                        elif kind_ == 'must_call':
+                            ex.must_calls.append((tag, a, when))
+                        else:
+                            ex.never_calls.append((tag, a, when))
                     elif d.startswith('rule'):
                         mo = _RULE.match(d)
                         if not mo:
@@ -145,6 +164,10 @@ def parse(template_text):
                             ex.anchor = v.strip('`')
                         elif k == 'params':
                             ex.params = v.strip('`')
+                        elif k == 'loop_index':
+                            ex.loop_index = int(v)
+                        elif k == 'loop_containing':
+                            ex.loop_containing = v.strip('`')
                         elif k == 'cut_after':
                             ex.cut_after = v.strip('`')
                         elif k == 'cut_before':
@@ -175,6 +198,7 @@ def parse(template_text):
             i += 1
     if buf:
         segs.append(('text', '\n'.join(buf), buf_start))
+    segs = _expand_variants(segs)
     # unit-wide R5: the cells declared on a struct's extract apply to every method extracted from an impl of that
     # struct; `//@defaults TYPE` blocks add cellalias / tolerant rules to every fn extract of an impl of TYPE.
     struct_cells = {}
@@ -182,7 +206,7 @@ def parse(template_text):
         if kind == 'extract' and ex.kind == 'struct' and ex.cells:
             struct_cells[ex.name] = list(ex.cells)
     for kind, ex, _ in segs:
-        if kind != 'extract' or ex.kind not in ('fn', 'closure') or not ex.impl:
+        if kind != 'extract' or ex.kind not in ('fn', 'closure', 'loopbody') or not ex.impl:
             continue
         tnames = re.findall(r'[A-Za-z_]\w*', ex.impl)
         for t in tnames:
@@ -207,6 +231,58 @@ def parse(template_text):
     return segs
 
 
+def _base_requires(contract):
+    m = mask(contract)
+    mo = re.search(r'\bensures\b', m)
+    head = contract[:mo.start()] if mo else contract
+    hm = mask(head)
+    mr = re.search(r'\brequires\b', hm)
+    if not mr:
+        return ''
+    body = head[mr.end():]
+    bm = hm[mr.end():]
+    # comments are dropped (a generated clause is appended after the last real one)
+    body = ''.join(ch if (mk != ' ' or ch in ' \t\n') else ' ' for ch, mk in zip(body, bm))
+    return '\n'.join(l.rstrip() for l in body.split('\n') if l.strip()).rstrip()
+
+
+def _expand_variants(segs):
+    """must_call / never_call / order directives: each yields one more extract of the same function (same text, same
+    rules) whose contract is generated: see Extract.  The rewritten call sites are located by regex over the extracted
+    text; they keep the real call and add a helper next to it."""
+    import copy
+    out = []
+    for seg in segs:
+        out.append(seg)
+        kind, ex, line = seg
+        if kind != 'extract' or not (ex.must_calls or ex.never_calls or ex.orders):
+            continue
+        if not ex.as_sig:
+            raise ValueError('%s: must_call/never_call/order need an `as:` signature' % ex.id)
+        base = _base_requires(ex.contract).rstrip()
+        if base and not mask(base).rstrip().endswith(','):
+            base = base + ','
+
+        def variant(suffix, rules, when, ensures_false, tag):
+            v = copy.deepcopy(ex)
+            v.must_calls, v.never_calls, v.orders = [], [], []
+            v.id = '%s!%s' % (ex.id, suffix)
+            v.as_sig = re.sub(r'\bfn\s+(\w+)', lambda q: 'fn %s__%s' % (q.group(1), re.sub(r'\W', '_', suffix)), ex.as_sig, count=1)
+            v.panics = 'diverge'
+            v.rules = list(ex.rules) + rules
+            v.loops = {}
+            req = base + (' ' + when + ',' if when else '')
+            v.contract = ('    requires %s\n' % req if req.strip() else '') + ('    ensures false, // [%s]\n' % tag if ensures_false else '    // [%s]\n' % tag)
+            return ('extract', v, line)
+        for (tag, rx, when) in ex.must_calls:
+            out.append(variant('must_' + tag, [('R8v', True, rx, '\x00vx_diverge(); ', None, True)], when, True, tag))
+        for (tag, rx, when) in ex.never_calls:
+            out.append(variant('never_' + tag, [('R8v', True, rx, 'vx_forbidden(); \x00', None, True)], when, False, tag))
+        for (tag, a, b, when) in ex.orders:
+            out.append(variant('order_' + tag, [('R8v', True, b, 'vx_forbidden(); \x00', None, True), ('R8v', True, a, '\x00vx_diverge(); ', None, True)], when, False, tag))
+    return out
+
+
 _files = {}
 _struct_cells = {}      # struct name -> cells declared on its //@extract struct block (unit-wide R5 for its methods)
 _defaults = {}          # type name -> list of (kind, payload) default directives for its fn extracts
@@ -223,11 +299,27 @@ def read_repo(rel):
 
 def _apply_rules(ex, text, fired):
     for (label, is_re, pat, rep, cnt, anyc) in ex.rules:
-        if anyc:
+        if label == 'R8v':
+            before, after = rep.split('\x00')
+            text, n = rules.wrap_calls(text, pat, before, after)
+        elif anyc:
             try:
                 text, n = rules.apply_literal(text, pat, rep, None, is_re)
             except AnchorLost:
                 n = 0
+        if anyc:
+            if n == 0 and ('vx_diverge' in rep or 'vx_forbidden' in rep):
+                # a must-call / must-not-call rewrite found no call site.  If the callee's name still occurs in the
+                # function, the call is there in a form the pattern does not recognise: undecided, never a violation.
+                # key: the callee with its immediate receiver, e.g. `internal.disallow_future_use(` (a call of a
+                # different function that happens to have the same name on another receiver is not "the same call")
+                head = re.split(r'\\?\(', pat, 1)[0]
+                segs = re.findall(r'[A-Za-z_]\w*', re.sub(r'\\[sSwWdDbB]', ' ', head))
+                key = None
+                if segs:
+                    key = r'\s*\.\s*'.join(re.escape(x) for x in segs[-2:])
+                if key and re.search(r'\b%s\s*\(' % key, mask(text)):
+                    raise AnchorLost('%s: a call of `%s` is present but not in the form `%s`' % (ex.id, key, pat))
         elif ex.id.endswith('@release'):
             # auto-generated release variant: a rewrite that targets debug-only code has nothing to do there
             try:
@@ -309,6 +401,54 @@ def expand_extract(ex, canary=False):
         lets = ' '.join('let %s = vx_p%d;' % (pt, i) for i, pt in enumerate(pats))
         body = '{ ' + lets + ' ' + cbody + ' }'
         orig = ctext
+    if ex.kind == 'loopbody':
+        # R7h: the body of loop number `loop_index` of fn `name`, emitted as a function of the loop variable:
+        # `for PAT in ITER { BODY }` / `while let PAT = EXPR { BODY }`  ->  fn f(.., vx_item: T) { let PAT = vx_item; BODY }
+        # with `continue` (of that loop) -> `return`.  What is dropped: the iteration itself (which items are visited);
+        # what is kept: everything done for one item.  A `break` of that loop is not supported.
+        lps = rsrc.loops(body)
+        bm = mask(body)
+        if ex.loop_containing:
+            cands = []
+            for (kw_, lbo_) in lps:
+                lbc_ = rsrc.match_close(bm, lbo_)
+                if re.search(ex.loop_containing, bm[kw_:lbc_ + 1]):
+                    cands.append((lbc_ - kw_, kw_, lbo_))
+            if not cands:
+                raise AnchorLost('%s: no loop of fn %s contains `%s`' % (ex.id, ex.name, ex.loop_containing))
+            _, kw, lbo = min(cands)
+        else:
+            if ex.loop_index >= len(lps):
+                raise AnchorLost('%s: fn %s has %d loop(s), loop_index %d' % (ex.id, ex.name, len(lps), ex.loop_index))
+            kw, lbo = lps[ex.loop_index]
+        lbc = rsrc.match_close(bm, lbo)
+        header = body[kw:lbo]
+        hm = bm[kw:lbo]
+        mo_for = re.match(r'for\s+(.*?)\s+in\s+', hm, re.S)
+        mo_wl = re.match(r'while\s+let\s+(.*?)\s*=\s', hm, re.S)
+        if mo_for:
+            pat = header[mo_for.start(1):mo_for.end(1)]
+        elif mo_wl:
+            pat = header[mo_wl.start(1):mo_wl.end(1)].strip()
+            # `while let Some(P) = next_item` runs its body once per item P
+            if pat.startswith('Some(') and pat.endswith(')'):
+                pat = pat[5:-1]
+        else:
+            raise AnchorLost('%s: loop %d of fn %s is neither `for PAT in` nor `while let PAT =`' % (ex.id, ex.loop_index, ex.name))
+        inner, im = body[lbo + 1:lbc], bm[lbo + 1:lbc]
+        nested = [(a, rsrc.match_close(im, b)) for (a, b) in rsrc.loops(inner, im)]
+        out, last = [], 0
+        for mo_c in re.finditer(r'\b(continue|break)\b', im):
+            if any(a <= mo_c.start() <= b for (a, b) in nested):
+                continue
+            if mo_c.group(1) == 'break':
+                raise AnchorLost('%s: `break` in the extracted loop body' % ex.id)
+            out.append(inner[last:mo_c.start()])
+            out.append('return')
+            last = mo_c.end()
+        out.append(inner[last:])
+        body = '{ let %s = vx_item; %s }' % (pat, ''.join(out))
+        orig = src[loc['body_open'] + kw:loc['body_open'] + lbc + 1]
     n_loops_orig = len(rsrc.loops(body))
     text = body
     text, n = rules.strip_attrs(text)
@@ -320,8 +460,9 @@ def expand_extract(ex, canary=False):
     text, n = rules.r1c_cfg(text, ex.cfg)
     if n:
         fired.append('R1c cfg=%s x%d' % (ex.cfg, n))
-    if ex.tracing:
-        text, n = rules.r2_tracing(text)
+    # R2 is applied to every function (logging may be added to or removed from any of them without a semantic change)
+    text, n = rules.r2_tracing(text)
+    if n or ex.tracing:
         fired.append('R2 tracing x%d' % n)
     if ex.cells:
         text, n = rules.r5_cells(text, ex.cells)
@@ -405,7 +546,8 @@ def expand_extract(ex, canary=False):
             # must-panic variant: its contract already ends in `false`; the vacuity question is whether its
             # `requires` (with the trusted specs in scope) is satisfiable, so the twin keeps the contract
             # and replaces the body by one that returns an arbitrary value: it must be rejected.
-            twin = tsig + '\n' + contract + '{ vx_any() }\n'
+            # (never_call / order variants have no postcondition of their own: `false` is added)
+            twin = tsig + '\n' + (contract if re.search(r'\bensures\s+false\b', mask(contract)) else canary_contract(contract)) + '{ vx_any() }\n'
         else:
             twin = tsig + '\n' + canary_contract(contract) + text + '\n'
         for a in ex.attrs:
@@ -551,7 +693,7 @@ def generate(template_text, canary=False):
                 twins.append(dict(id=ex.id, gen_start=out_lines + 1, gen_end=out_lines + tw.count('\n') + 1))
                 out.append(tw)
                 out_lines += tw.count('\n') + 1
-            if (ex.kind in ('fn', 'closure') and ex.cfg == 'debug' and not ex.external_body and not ex.no_release_variant
+            if (ex.kind in ('fn', 'closure', 'loopbody') and ex.cfg == 'debug' and not ex.external_body and not ex.no_release_variant
                     and re.search(r'\bdebug_assert|cfg!?\(\s*(not\()?\s*debug_assertions', mask(ex.meta['orig']))):
                 # the same body as rustc compiles it with debug assertions off: debug_assert!s and cfg(debug_assertions)
                 # items erased.  Emitted next to the debug variant under the same contract, so both build
